@@ -8,6 +8,7 @@ import (
 	"bufio"
 	"encoding/binary"
 	"errors"
+	"fmt"
 	"io"
 
 	"github.com/pion/rtp"
@@ -93,7 +94,7 @@ func ReadPacket(r *bufio.Reader, channelConfig []int) (*Packet, error) {
 		if v == channel {
 			p.Channel = byte(i)
 			if p.Channel == ChannelVideo || p.Channel == ChannelAudio {
-				if err = p.Header.Unmarshal(p.Data); err != nil {
+				if err = unmarshalHeader(&p.Header, p.Data); err != nil {
 					return nil, err
 				}
 			}
@@ -101,6 +102,17 @@ func ReadPacket(r *bufio.Reader, channelConfig []int) (*Packet, error) {
 		}
 	}
 	return nil, errors.New("RTP Packet illegal channel")
+}
+
+// unmarshalHeader 解析 RTP 头；
+// 畸形的扩展头会使 pion/rtp 切片越界，这里转换为错误返回，而不是让调用者 panic。
+func unmarshalHeader(h *rtp.Header, data []byte) (err error) {
+	defer func() {
+		if r := recover(); r != nil {
+			err = fmt.Errorf("malformed RTP header: %v", r)
+		}
+	}()
+	return h.Unmarshal(data)
 }
 
 // Write 根据规范将 RTP 包输出到 w
